@@ -47,6 +47,20 @@ StarSet(K, Kinds) ==
       IN << <<>> >> \o [i \in 1..K |-> << [p |-> 1, kd |-> m[i + 1]] >>] \o << sink >>
       : m \in mids, o \in outs, d \in direct}
 
+\* Shared-buffer graphs (C10 / C03): an ACCUMULATED cotangent is handed on unchanged (alias) to several parents which receive
+\* further contributions afterwards - the situation in which an in-place accumulation would corrupt a buffer two nodes share.
+\*   1: x;  2, 3: u, v = op(x);  4: w = op(u, v) (kinds per slot);  5: t = op(u, v) (another consumer of u and v);
+\*   6: out = op(args) where args is an arrangement of t and one or two uses of w (the LIFO order of the backward pass follows it).
+ShareSet(Kinds) ==
+  LET Dense == {"alias", "fresh"}
+      outArgs == {<<5, 4>>, <<4, 5>>, <<5, 4, 4>>, <<4, 5, 4>>, <<4, 4, 5>>}
+  IN {<< <<>>,
+         <<[p |-> 1, kd |-> "fresh"]>>, <<[p |-> 1, kd |-> "fresh"]>>,
+         <<[p |-> 2, kd |-> wk[1]], [p |-> 3, kd |-> wk[2]]>>,
+         <<[p |-> 2, kd |-> tk[1]], [p |-> 3, kd |-> tk[2]]>>,
+         [i \in DOMAIN oa |-> [p |-> oa[i], kd |-> ok[i]]] >>
+      : wk \in [1..2 -> Dense], tk \in [1..2 -> Kinds], oa \in outArgs, ok \in [1..3 -> Dense]}
+
 \* ---------------------------------------------------------------- derived structure
 NodesOf(args) == 1..Len(args)
 ParentsOf(args, k) == {args[k][j].p : j \in DOMAIN args[k]} \ {0}
